@@ -207,6 +207,9 @@ class ESSearch(ABC):
                     * self.scale
                 )
 
+        if us.shape[0] == 0:
+            # every candidate was removed by the filter: empty search set
+            return us, z
         return us[0], z[0]
 
 
